@@ -501,9 +501,13 @@ def metamorphic(case, out, rng):
 # generators
 # ------------------------------------------------------------------------------------------
 COST_GRID = [2, 4, 6]  # 1/2, 1, 3/2
-# triples that make ties between different alignments frequent (ins + del == sub, sub == ins, ...)
-TIE_COSTS = [[2, 2, 4], [4, 4, 8], [2, 4, 6], [4, 2, 6], [2, 6, 8], [4, 4, 2], [2, 4, 2], [4, 2, 2], [4, 8, 4],
-             [8, 4, 4], [2, 2, 6], [6, 6, 4], [1, 3, 4], [3, 1, 4], [4, 4, 6], [4, 4, 12], [2, 6, 4], [6, 2, 4]]
+# ins + del == sub: a substitution (1 edit) ties with deletion + insertion (2 edits), so minimum-cost
+# alignments with different numbers of edits exist and the tie-breaking is observable in the count
+SUBTIE_COSTS = [[2, 2, 4], [4, 4, 8], [2, 6, 8], [6, 2, 8], [1, 3, 4], [3, 1, 4], [2, 4, 6], [4, 2, 6], [1, 1, 2],
+                [3, 3, 6], [1, 2, 3], [2, 1, 3], [5, 3, 8], [1, 5, 6]]
+# other ties (two substitutions == deletion + insertion, substitution == insertion, ...)
+TIE_COSTS = [[4, 4, 2], [2, 4, 2], [4, 2, 2], [4, 8, 4], [8, 4, 4], [2, 2, 6], [6, 6, 4], [4, 4, 6], [4, 4, 12],
+             [2, 6, 4], [6, 2, 4], [3, 5, 4], [2, 2, 1]]
 
 
 def gen_exhaustive(chk):
@@ -520,7 +524,8 @@ def gen_exhaustive(chk):
             if thorough:
                 combos = [(f, c) for f in flags for c in costs]
             else:
-                combos = [(flags[(k + j * 7) % 16], costs[(k * 5 + j * 11) % 27]) for j in range(2)]
+                grid_ties = [(2, 2, 4), (2, 4, 6), (4, 2, 6)]
+                combos = [(flags[(k + 7) % 16], costs[(k * 5 + 11) % 27]), (flags[k % 16], grid_ties[k % 3])]
             for j, (f, c) in enumerate(combos):
                 k += 1
                 api = "prefix" if (k + bi) % 2 else "er"
@@ -543,9 +548,11 @@ def _rand_costs(rng):
     if u < 0.15:
         k = rng.randint(1, 12)
         return [k, k, k]
-    if u < 0.55:
+    if u < 0.6:
+        return list(rng.choice(SUBTIE_COSTS))
+    if u < 0.75:
         return list(rng.choice(TIE_COSTS))
-    if u < 0.7:
+    if u < 0.8:
         return [rng.choice([2, 4]) for _ in range(3)]
     return [rng.randint(1, 12) for _ in range(3)]
 
